@@ -10,7 +10,6 @@ import (
 	"fmt"
 	"os"
 	"runtime/debug"
-	"strconv"
 	"runtime/pprof"
 	"sync"
 	"sync/atomic"
@@ -59,7 +58,6 @@ type evmPoolOfWorkers struct {
 }
 
 var stopProfile = func() {}
-var ballast []byte
 
 var rebuilt, fallbacks, literals, confirmed, unconfirmed int64
 
@@ -69,12 +67,6 @@ func main() {
 	// small collection window: first-touch page faults are very expensive in the
 	// sandbox, so garbage should be recycled from warm memory
 	debug.SetGCPercent(10)
-	if v, err := strconv.Atoi(os.Getenv("VERIF_C19_GOGC")); err == nil {
-		debug.SetGCPercent(v)
-	}
-	if v, err := strconv.Atoi(os.Getenv("VERIF_C19_BALLAST")); err == nil {
-		ballast = make([]byte, v<<20)
-	}
 	evmkit.Silence()
 	// one signature-checking goroutine per block instead of NumCPU spinning ones:
 	// 16 pools are exercised in parallel and block execution is not the subject here
@@ -116,37 +108,37 @@ func main() {
 			return w
 		}
 		return func(i int, st *stateRec, suffix []string, mode string, literal bool) *execResult {
-				w := get(i)
-				full := append(append([]string{}, st.hist...), suffix...)
-				if s, ok := st.snap.(*evmState); ok && s != nil && !literal {
-					if r := runEvm(w, s, full, len(suffix), mode); r != nil {
-						atomic.AddInt64(&rebuilt, 1)
-						if len(r.Findings) == 0 {
-							return r
-						}
-						// confirm by the literal replay before anything is reported;
-						// several attempts, because what the pool offers may depend on
-						// Go's randomised map iteration
-						for try := 0; try < 8; try++ {
-							lit := runEvm(w, nil, full, 0, mode)
-							if len(lit.Findings) > 0 && lit.Findings[0].Kind == r.Findings[0].Kind {
-								atomic.AddInt64(&confirmed, 1)
-								return lit
-							}
-						}
-						// observed on the real pool in a state whose key equals the
-						// recorded one, but not reproduced literally: reported as such
-						atomic.AddInt64(&unconfirmed, 1)
-						for i := range r.Findings {
-							r.Findings[i].Detail += " [observed after rebuilding the parent state; 8 literal replays of the history did not show it — order-dependent output]"
-						}
+			w := get(i)
+			full := append(append([]string{}, st.hist...), suffix...)
+			if s, ok := st.snap.(*evmState); ok && s != nil && !literal {
+				if r := runEvm(w, s, full, len(suffix), mode); r != nil {
+					atomic.AddInt64(&rebuilt, 1)
+					if len(r.Findings) == 0 {
 						return r
 					}
-					atomic.AddInt64(&fallbacks, 1)
+					// confirm by the literal replay before anything is reported;
+					// several attempts, because what the pool offers may depend on
+					// Go's randomised map iteration
+					for try := 0; try < 8; try++ {
+						lit := runEvm(w, nil, full, 0, mode)
+						if len(lit.Findings) > 0 && lit.Findings[0].Kind == r.Findings[0].Kind {
+							atomic.AddInt64(&confirmed, 1)
+							return lit
+						}
+					}
+					// observed on the real pool in a state whose key equals the
+					// recorded one, but not reproduced literally: reported as such
+					atomic.AddInt64(&unconfirmed, 1)
+					for i := range r.Findings {
+						r.Findings[i].Detail += " [observed after rebuilding the parent state; 8 literal replays of the history did not show it — order-dependent output]"
+					}
+					return r
 				}
-				atomic.AddInt64(&literals, 1)
-				return runEvm(w, nil, full, 0, mode)
-			}, func() {}
+				atomic.AddInt64(&fallbacks, 1)
+			}
+			atomic.AddInt64(&literals, 1)
+			return runEvm(w, nil, full, 0, mode)
+		}, func() {}
 	}
 	closeWorkers := func() {
 		for _, w := range pw.ws {
@@ -279,30 +271,30 @@ func main() {
 	os.RemoveAll(run.WorkDir())
 	stopProfile()
 	cov := core.Coverage{
-		"states":                        states,
-		"transitions":                   trans,
-		"traces_validated_against_impl": execs,
-		"evaluations":                   execs,
-		"reap_outputs_checked":          reaps,
-		"blocks_committed":              blocks,
-		"merges":                        merges,
-		"merge_oracle_checks":           mchecks,
-		"merge_oracle_mismatches":       mmis,
-		"drain_probes":                  drains,
-		"evm_runs_from_rebuilt_state":   rebuilt,
-		"evm_rebuild_fallbacks":         fallbacks,
-		"evm_literal_replays":           literals,
-		"evm_findings_confirmed_literally": confirmed,
+		"states":                                states,
+		"transitions":                           trans,
+		"traces_validated_against_impl":         execs,
+		"evaluations":                           execs,
+		"reap_outputs_checked":                  reaps,
+		"blocks_committed":                      blocks,
+		"merges":                                merges,
+		"merge_oracle_checks":                   mchecks,
+		"merge_oracle_mismatches":               mmis,
+		"drain_probes":                          drains,
+		"evm_runs_from_rebuilt_state":           rebuilt,
+		"evm_rebuild_fallbacks":                 fallbacks,
+		"evm_literal_replays":                   literals,
+		"evm_findings_confirmed_literally":      confirmed,
 		"evm_findings_not_reproduced_literally": unconfirmed,
-		"distinct_nontrivial":           rep.classes.Len(),
-		"distinct_observations":         rep.obsSet.Len(),
-		"outcome_classes":               rep.classes.Map(),
-		"finding_classes":               rep.finds.Map(),
-		"per_system":                    statOut,
-		"growth_probe":                  growth,
-		"bounds":                        bounds,
-		"exhaustive":                    exhaustive,
-		"samples":                       rep.samples.List(),
+		"distinct_nontrivial":                   rep.classes.Len(),
+		"distinct_observations":                 rep.obsSet.Len(),
+		"outcome_classes":                       rep.classes.Map(),
+		"finding_classes":                       rep.finds.Map(),
+		"per_system":                            statOut,
+		"growth_probe":                          growth,
+		"bounds":                                bounds,
+		"exhaustive":                            exhaustive,
+		"samples":                               rep.samples.List(),
 		"rule": "BFS over histories of letters (ReceiveTx of each tx of the alphabet, commit selections of the pool's own Reap(-1) executed as a real block + Update + OnCommit, Flush, observer letter) up to the stated depth per system/configuration; " +
 			"every (unique state, letter) pair is executed on a real instance (replay + letter) and followed by the observers Reap(0|1|2|-1), Size, GetPendingMaxNonce; every unique state additionally gets a drain probe (reap all/commit all until nothing is offered) that decides the no-loss clause; " +
 			"states are deduplicated by the canonical key (see canon in evmpool.go / mpool.go), merged alternatives are re-expanded for the merge oracle (first observer-ending alternative + one other per key); distinct_nontrivial counts distinct (pool, letter kind, outcome) classes, distinct_observations distinct canonical observation texts",
